@@ -14,6 +14,7 @@ import (
 
 	"github.com/containerd/nri/pkg/api"
 	"github.com/containerd/nri/pkg/stub"
+	"github.com/containerd/nri/pkg/verifhook"
 	"github.com/containerd/ttrpc"
 	"google.golang.org/protobuf/proto"
 	"pgregory.net/rapid"
@@ -91,6 +92,12 @@ type Round struct {
 	// Mask is the event subscription the plugin's Configure handler returns in this round
 	// (0 = everything). Synchronize is not an event: the oracle does not depend on it.
 	Mask int `json:"mask,omitempty"`
+	// HoldPrevClose (rounds after the first): where in this round the close notification of
+	// the stub's PREVIOUS session is let through (see hold_test.go): "start", "first-request",
+	// "after-chunk" (with HoldChunk = k: after the k-th accepted "more" chunk), "end".
+	// Hooks build only; without hooks a round with a hold restarts the stub without settling.
+	HoldPrevClose string `json:"hold_prev_close,omitempty"`
+	HoldChunk     int    `json:"hold_chunk,omitempty"`
 }
 
 // maxRounds bounds the registrations of one case.
@@ -427,7 +434,18 @@ func genC09(t *rapid.T) C09Case {
 		if i < n-1 {
 			kind = rapid.SampledFrom([]string{"abort", "tail", "any"}).Draw(t, "round-kind")
 		}
+		hold, holdChunk := "", 0
+		if i > 0 && rapid.Bool().Draw(t, "hold") {
+			hold = rapid.SampledFrom(holdKinds).Draw(t, "hold-kind")
+			if hold == holdAfterChunk {
+				holdChunk = rapid.IntRange(1, 3).Draw(t, "hold-chunk")
+				if kind == "any" && rapid.IntRange(0, 2).Draw(t, "hold-split") > 0 {
+					kind = "split3" // a state of at least three messages, so that the point exists
+				}
+			}
+		}
 		r := genRound(t, kind)
+		r.HoldPrevClose, r.HoldChunk = hold, holdChunk
 		if i == 0 {
 			c.Round = r
 		} else {
@@ -471,6 +489,8 @@ func genRound(t *rapid.T, kind string) Round {
 		c.AbortAfter = rapid.IntRange(1, 3).Draw(t, "abort-after")
 	case "tail":
 		mode = "tail"
+	case "split3":
+		mode = "abortfill"
 	default:
 		if rapid.IntRange(0, 7).Draw(t, "abort") == 0 {
 			c.AbortAfter = rapid.IntRange(1, 4).Draw(t, "abort-after")
@@ -585,11 +605,18 @@ type observer struct {
 	want []*api.ContainerUpdate
 	// runtime-side abort (Round.AbortAfter)
 	abortAfter int
-	maxChunk   int // largest Synchronize request that reached the plugin (proto.Size)
-	moreDone   int // "more" chunks the stub has accepted (its handler returned without error)
-	abortedAt  int
-	onAbort    func()
-	roundDone  <-chan struct{}
+	// release of the previous session's held close notification (Round.HoldPrevClose)
+	releaseKind  string
+	releaseChunk int
+	released     bool
+	releasedAt   int // "more" chunks accepted when it was released (-1: before the first request was handled)
+	release      func()
+
+	maxChunk  int // largest Synchronize request that reached the plugin (proto.Size)
+	moreDone  int // "more" chunks the stub has accepted (its handler returned without error)
+	abortedAt int
+	onAbort   func()
+	roundDone <-chan struct{}
 
 	calls int    // invocations of the plugin's Synchronize handler
 	diff  string // first difference between a delivered state and the runtime's
@@ -608,7 +635,16 @@ func (o *observer) intercept(ctx context.Context, um ttrpc.Unmarshaler, _ *ttrpc
 		if abort {
 			o.abortedAt = o.moreDone
 		}
+		rel := o.release != nil && o.releaseKind == holdAfterChunk && o.moreDone == o.releaseChunk && !o.released
+		if rel {
+			o.released, o.releasedAt = true, o.moreDone
+		}
 		o.mu.Unlock()
+		if rel {
+			// the previous session's close notification runs now, while this chunk's reply is
+			// held: between two chunks of the split state
+			o.release()
+		}
 		if abort {
 			// The runtime gives up now: cancel its context and hold this chunk's reply until
 			// the runtime's SyncFn has returned, so that no further chunk is on its way when
@@ -630,6 +666,12 @@ func (o *observer) observe(um ttrpc.Unmarshaler, more *bool) ttrpc.Unmarshaler {
 			*more = req.More
 			sz := proto.Size(req)
 			o.mu.Lock()
+			if o.release != nil && o.releaseKind == holdFirstRequest && !o.released {
+				o.released, o.releasedAt = true, -1
+				o.mu.Unlock()
+				o.release() // before the stub handles the first message of this session
+				o.mu.Lock()
+			}
 			if sz > o.maxChunk {
 				o.maxChunk = sz
 			}
@@ -738,6 +780,7 @@ type roundHistory struct {
 	// PredictedRejections: oversize rejections according to the harness's mirror of the
 	// sender's arithmetic (classification only)
 	PredictedRejections int    `json:"predicted_rejections"`
+	HoldReleasedAt      string `json:"prev_close_released,omitempty"` // where the previous session's close notification was let through
 	AbortedAt           int    `json:"runtime_aborted_after_chunk,omitempty"`
 	Calls               int    `json:"handler_calls"`
 	GotPods             int    `json:"handler_pods"`
@@ -805,7 +848,12 @@ func (r Round) validate() (roundSizes, error) {
 		total += s
 	}
 	if total > maxTotalAny || len(r.Updates) > 64 || r.AbortAfter < 0 || r.AbortAfter > 64 ||
-		r.Mask < 0 || api.EventMask(r.Mask)&^api.ValidEvents != 0 {
+		r.Mask < 0 || api.EventMask(r.Mask)&^api.ValidEvents != 0 || r.HoldChunk < 0 || r.HoldChunk > 64 {
+		return rs, fmt.Errorf("out of domain")
+	}
+	switch r.HoldPrevClose {
+	case "", holdStart, holdFirstRequest, holdAfterChunk, holdEnd:
+	default:
 		return rs, fmt.Errorf("out of domain")
 	}
 	return rs, nil
@@ -892,8 +940,13 @@ func runOnce(c C09Case) (ev.Outcome, bool) {
 	classes := []string{fmt.Sprintf("rounds:%d", len(rounds))}
 	var lenient []string
 	nonTrivial := false
+	defer gate.release() // nothing stays held beyond the case
 	for i, r := range rounds {
-		rr := se.runRound(i, r, sizes[i])
+		var next *Round
+		if i+1 < len(rounds) {
+			next = &rounds[i+1]
+		}
+		rr := se.runRound(i, r, sizes[i], next)
 		classes = append(classes, rr.classes...)
 		lenient = append(lenient, rr.lenient...)
 		nonTrivial = nonTrivial || rr.nonTrivial
@@ -909,7 +962,7 @@ func runOnce(c C09Case) (ev.Outcome, bool) {
 
 // runRound registers the session's stub once against a runtime holding the round's state
 // and judges this registration against this state only.
-func (se *session) runRound(idx int, c Round, rs roundSizes) (rr roundResult) {
+func (se *session) runRound(idx int, c Round, rs roundSizes, next *Round) (rr roundResult) {
 	f := se.f
 	name := se.name
 	tag := ""
@@ -1005,16 +1058,57 @@ func (se *session) runRound(idx int, c Round, rs roundSizes) (rr roundResult) {
 	// its registration request. That is a legitimate face of "registration fails", so the
 	// verdict is taken from the runtime's side below and Start's error only recorded.
 	p.Mask = api.EventMask(c.Mask)
+
+	// --- timing of the previous session's close notification (hold_test.go) ------------------
+	holdHere := idx > 0 && c.HoldPrevClose != ""
+	holdNext := next != nil && next.HoldPrevClose != ""
+	prevStarts := se.starts
+	releasedHere, confirmed := false, false
+	releaseNow := func() {
+		releasedHere = true
+		gate.release()
+		// ... and it has run (the stub reports every closed session through onClose)
+		deadline := time.Now().Add(5 * time.Second)
+		for p.Closed.Load() < prevStarts && time.Now().Before(deadline) {
+			time.Sleep(100 * time.Microsecond)
+		}
+		confirmed = p.Closed.Load() >= prevStarts
+		if holdNext {
+			gate.arm() // this session's own notification is held for the next round
+		}
+	}
+	if holdHere {
+		rr.classes = append(rr.classes, "restart-timing-drawn") // either build
+	}
+	if verifhook.Enabled {
+		if holdNext && !holdHere {
+			gate.arm()
+		}
+		if holdHere {
+			rr.classes = append(rr.classes, "hold:"+c.HoldPrevClose)
+			switch c.HoldPrevClose {
+			case holdStart:
+				releaseNow()
+			case holdFirstRequest, holdAfterChunk:
+				obs.releaseKind, obs.releaseChunk, obs.release = c.HoldPrevClose, max(1, c.HoldChunk), releaseNow
+			}
+		}
+	} else if holdHere {
+		rr.classes = append(rr.classes, "immediate-restart")
+	}
+
 	startErr := p.Stub.Start(context.Background())
 	se.starts++
 	// whatever happens, the session is ended before the next round (or the end of the case)
 	defer func() {
 		p.Stub.Stop()
-		// the close notification of every session so far (Start is callable again as soon as
-		// Stop returned; a late notification of an old session is ignored by the stub)
-		deadline := time.Now().Add(5 * time.Second)
-		for p.Closed.Load() < se.starts && time.Now().Before(deadline) {
-			time.Sleep(200 * time.Microsecond)
+		if !holdNext {
+			// the close notification of every session so far (Start is callable again as soon
+			// as Stop returned; a late notification of an old session is ignored by the stub)
+			deadline := time.Now().Add(5 * time.Second)
+			for p.Closed.Load() < se.starts && time.Now().Before(deadline) {
+				time.Sleep(200 * time.Microsecond)
+			}
 		}
 		_ = f.r.Probe() // lets the adaptation drop the closed plugin
 	}()
@@ -1049,6 +1143,25 @@ func (se *session) runRound(idx int, c Round, rs roundSizes) (rr roundResult) {
 		hist.SyncErr = s.err.Error()
 	}
 	hist.Panic = s.panicked
+	if verifhook.Enabled && holdHere {
+		obs.mu.Lock()
+		viaObserver, at := obs.released, obs.releasedAt
+		obs.release = nil
+		obs.mu.Unlock()
+		if !releasedHere && !viaObserver {
+			if c.HoldPrevClose != holdEnd {
+				rr.classes = append(rr.classes, "hold:point-not-reached")
+			}
+			releaseNow()
+		}
+		hist.HoldReleasedAt = fmt.Sprintf("%s (accepted 'more' chunks at that time: %d, notification seen to have run: %v)", c.HoldPrevClose, at, confirmed)
+		if viaObserver && at >= 1 && confirmed {
+			rr.classes = append(rr.classes, "hold:released-between-chunks")
+		}
+		if confirmed {
+			rr.classes = append(rr.classes, "hold:notification-ran")
+		}
+	}
 
 	// --- "the runtime does not crash" ------------------------------------------------------
 	if s.panicked != "" {
@@ -1345,6 +1458,15 @@ func sweepCases() []C09Case {
 	mh2 := round(uniform(1, 100), uniform(9, 480000))
 	mh2.Mask = int(podEventMask)
 	out = append(out, C09Case{Round: aborted(mh, 1), Next: []Round{mh2, mh}})
+	// --- the previous session's close notification arrives inside the next session ------------
+	held := func(r Round, kind string, k int) Round { r.HoldPrevClose, r.HoldChunk = kind, k; return r }
+	split3 := round(uniform(3, 100), uniform(40, 200<<10))
+	small5 := round(uniform(2, 100), uniform(5, 100))
+	out = append(out, C09Case{Round: small5, Next: []Round{held(split3, holdAfterChunk, 1)}})
+	out = append(out, C09Case{Round: split3, Next: []Round{held(small5, holdFirstRequest, 0), held(split3, holdAfterChunk, 2)}})
+	out = append(out, C09Case{Round: aborted(split3, 1), Next: []Round{held(split3, holdAfterChunk, 1)}})
+	out = append(out, C09Case{Round: round(uniform(1, 0), tail), Next: []Round{held(split3, holdEnd, 0), held(round(uniform(300, 40000), uniform(3, 10)), holdAfterChunk, 1)}})
+	out = append(out, C09Case{Round: small5, Next: []Round{held(split3, holdStart, 0), held(split3, holdFirstRequest, 0)}})
 	rf := round(uniform(3, 100), uniform(50, 200000))
 	rf.RuntimeFails = true
 	out = append(out, C09Case{Round: rf, Next: []Round{round(uniform(3, 100), uniform(50, 200000))}})
@@ -1357,12 +1479,17 @@ func TestExh_C09(t *testing.T) {
 	}
 	r := ev.Get("C09")
 	defer r.Flush()
-	n := 0
+	n, between := 0, 0
 	for _, c := range sweepCases() {
 		raw := ev.Snapshot(c)
 		r.Journal(raw)
 		o := runC09(c)
 		r.ClearJournal()
+		for _, k := range o.Classes {
+			if k == "hold:released-between-chunks" {
+				between++
+			}
+		}
 		// keep the sweep out of the generator-health histogram keys
 		for i, k := range o.Classes {
 			o.Classes[i] = "sweep/" + k
@@ -1376,6 +1503,11 @@ func TestExh_C09(t *testing.T) {
 		}
 	}
 	r.SetExtra("sweep_cases", n)
+	// generator health of the hooks build (props.d floors cannot tell the two builds apart):
+	// the directed histories must have placed the stale close notification between two chunks
+	if verifhook.Enabled && between < 4 {
+		t.Fatalf("C09 sweep: the held close notification was released between chunks in %d rounds only (expected 4): the yield point stub.connclosed is not effective", between)
+	}
 	runHeadTailSweep(t, r)
 	runBoundarySweep(t, r)
 }
